@@ -181,6 +181,7 @@ def find_leaf_descent(crate, D=3):
             r = ex_.fresh(out_ty, st_, "node")
             b = Obj("bytes::BytesMut"); b.fields[("g", "which")] = Sym(BV64(2), "u64"); b.fields[("g", "from")] = fargs[2]
             r.fields[("Ok", 0)] = b
+            r.fields[("Err", 0)] = S.raw_io_error(st_)
             st_.events.append(("await", name, fargs, r))
             return [(S.poll_ready(dty, r), None)]
         return None
@@ -284,6 +285,7 @@ def go_right_file_run(crate, R=3):
                                         (r"^core::slice::(<impl[^>]*>::)?chunks_exact$", h_chunks_exact)],
                        havoc=[r"^(bytes::)?BytesMut::zeroed$", r"^<BytesMut as Deref>::deref$"])
     ex.unwind_assume = True
+    ex.await_hook = S.tag_reads_hook
     st = State()
     me = Obj("bptree::core::BPTreeFileIndex<K>")
     hdr = Obj("blob::index::header::IndexHeader")
@@ -392,3 +394,118 @@ def node_fits_block(crate):
             P.cover(ex, res, o2, z3.UGT(sz + ks + BV64(8), BV64(block)), "capacity is maximal for some key size")
             P.cover(ex, res, o2, sz == BV64(block), "a full node fills the block exactly for some key size")
     return P.finish(ex, res, ["capacity is maximal for some key size"])
+
+
+def read_headers_file_order(crate, NL=2, NR=2):
+    """C09/C02: BPTreeFileIndex::read_headers (all versions of a key from the index file): the result is the run of the
+    key's records in FILE order - the records go_left collected (walking backwards from the hit) reversed, then the hit,
+    then what go_right collected - the order the in-memory index gives (from_records_order, get_all_mem); None iff the key
+    is not in the leaf; errors of the read and of the walks are returned."""
+    res = P.ObResult("read_headers_file_order[<=%d left, <=%d right]" % (NL, NR))
+    fn = crate.method("BPTreeFileIndex", "read_headers")
+    res.functions = ["BPTreeFileIndex::read_headers (async body)"]
+    res.bounds = "0..%d records found to the left and 0..%d to the right of the hit (one run per pair); read_header_buf / go_left / go_right replaced by their contracts (leaf_search, go_right_continues, go_right_file_run)" % (NL, NR)
+    from .ob_blob import _check_paths
+    from .ob_record import BYTES_SUMMARIES, mk_buf
+
+    def hdr(tag):
+        h = Obj(P.HEADER_TY); h.fields[("ghost", "pos")] = tag
+        return h
+    tq = ts = 0
+    for nl in range(NL + 1):
+        for nr in range(NR + 1):
+            ex = P.mk_executor(crate, cap=NL + NR + 3, loop_bound=NL + NR + 3, inline=[], extra_summaries=BYTES_SUMMARIES,
+                               havoc=[r"^BPTreeFileIndex::leaf_node_buf_size$", r"^Header::key$", r"^<K as AsRef<\[u8\]>>::as_ref$"])
+            st = State()
+            me = Obj("bptree::core::BPTreeFileIndex<K>")
+            mc = st.new_cell(me)
+            st.pc.append(z3.ULE(z3.BitVec("hv_leaf_buf", 64), BV64(4096)))
+
+            def call_hook(ex_, st_, cname, args, dty):
+                if cname == "BPTreeFileIndex::leaf_node_buf_size":
+                    return [(Sym(z3.BitVec("hv_leaf_buf", 64), "usize"), None)]
+                if cname == "BPTreeFileIndex::read_header_buf":
+                    r = Obj(dty)
+                    r.discr = Sym(z3.If(z3.Bool("search_ok"), BV64(0), BV64(1)), "isize")
+                    opt = Obj(S.generic_args(dty)[0])
+                    opt.discr = Sym(z3.If(z3.Bool("key_in_leaf"), BV64(1), BV64(0)), "isize")
+                    tup = Obj("(Header, usize)")
+                    tup.fields[(None, 0)] = hdr("hit")
+                    tup.fields[(None, 1)] = Sym(z3.BitVec("hit_offset", 64), "usize")
+                    opt.fields[("Some", 0)] = tup
+                    r.fields[("Ok", 0)] = opt
+                    st_.events.append(("call", cname, args, r))
+                    return [(r, None)]
+                return None
+            ex.call_hook = call_hook
+
+            def await_hook(ex_, st_, name, fargs, out_ty, dty, _nl=nl, _nr=nr):
+                if "read_exact_at" in name:
+                    okv = z3.Bool(fresh_name("read_ok"))
+                    r = Obj(out_ty); r.discr = Sym(z3.If(okv, BV64(0), BV64(1)), "isize")
+                    r.fields[("Ok", 0)] = mk_buf(z3.BitVec("hv_leaf_buf", 64), fargs[2].t, "leaf")
+                    r.fields[("Err", 0)] = S.raw_io_error(st_)
+                    st_.events.append(("await", name, fargs, r))
+                    return [(S.poll_ready(dty, r), None)]
+                walk = "left" if name.endswith("go_left") else "right" if name.endswith("go_right") else None
+                if walk:
+                    vr = [a for a in fargs if isinstance(a, Ref) and "Vec" in (a.ty or "")]
+                    if len(vr) != 1:
+                        raise Unsupported("%s: result vector argument" % name)
+                    r = S.vec_ref(ex_, st_, vr[0]); v = S.as_vec(ex_, st_, r)
+                    n0 = z3.simplify(v.len.t)
+                    if not z3.is_bv_value(n0):
+                        raise Unsupported("walk over a vector of symbolic length")
+                    n0 = n0.as_long()
+                    st_.events.append(("walk", walk, [hh.fields.get(("ghost", "pos")) if isinstance(hh, Obj) else None for hh in v.elems[:n0]], None))
+                    new = list(v.elems)
+                    for k in range(_nl if walk == "left" else _nr):
+                        new[n0 + k] = hdr("%s%d" % (walk[0], k + 1))
+                    ex_.write_path(st_, r.cell, r.proj, VecV(v.elem_ty, v.cap, Sym(BV64(n0 + (_nl if walk == "left" else _nr)), "usize"), new))
+                    okv = z3.Bool("%s_ok" % walk)
+                    rr = Obj(out_ty); rr.discr = Sym(z3.If(okv, BV64(0), BV64(1)), "isize"); rr.fields[("Ok", 0)] = UNIT
+                    st_.events.append(("await", name, fargs, rr))
+                    return [(S.poll_ready(dty, rr), None)]
+                return None
+            ex.await_hook = await_hook
+            key = Ref(st.new_cell(Obj("K")), (), False, "&K")
+            outs = P.drive_async(ex, st, fn, [Ref(mc, (), False, "&BPTreeFileIndex<K>"), Sym(z3.BitVec("leaf_offset", 64), "u64"), key, mk_buf(BV64(0), None, "scratch")])
+            res.paths += len(outs)
+            want = ["l%d" % k for k in range(nl, 0, -1)] + ["hit"] + ["r%d" % k for k in range(1, nr + 1)]
+
+            def per_path(o, isok, payload):
+                found = z3.And(z3.Bool("search_ok"), z3.Bool("key_in_leaf"))
+                opt = payload.fields.get(("Ok", 0)) if isinstance(payload, Obj) else None
+                if opt is None:
+                    return True
+                some = ex.get_discr(o, opt).t == BV64(1)
+                if not P.prove(ex, res, o, z3.Implies(isok, some == z3.Bool("key_in_leaf")), "Some iff the key is in the leaf"):
+                    return False
+                if not ex.feasible(o, z3.And(isok, some)):
+                    P.cover(ex, res, o, z3.And(isok, z3.Not(some)), "key absent")
+                    return True
+                v = opt.fields.get(("Some", 0))
+                if isinstance(v, Ref):
+                    v = S.deref_val(ex, o, v)
+                if not isinstance(v, VecV):
+                    res.status = "inconclusive"; res.detail = "result vector not modelled"; return False
+                if not P.prove(ex, res, o, z3.Implies(z3.And(isok, some), v.len.t == BV64(len(want))), "all %d collected records are returned" % len(want)):
+                    return False
+                got = [e.fields.get(("ghost", "pos")) if isinstance(e, Obj) else None for e in v.elems[:len(want)]]
+                if got != want:
+                    res.status = "violated"
+                    res.detail = "records of the key are returned as %s, file order is %s" % (got, want)
+                    res.counterexample = {"left": nl, "right": nr, "returned": got, "file_order": want}
+                    return False
+                for w in [e for e in o.events if e[0] == "walk" and e[1] == "right"]:
+                    if not w[2] or w[2][0] is None:
+                        res.status = "violated"; res.detail = "go_right starts from an empty vector (it compares with headers[0])"; return False
+                P.cover(ex, res, o, z3.And(isok, some), "run of %d+1+%d" % (nl, nr))
+                return True
+            if not _check_paths(ex, res, outs, per_path):
+                res.queries, res.solver_s = tq + ex.queries, ts + ex.solver_s
+                return P.finish(ex, res, [])
+            tq += ex.queries; ts += ex.solver_s
+    r = P.finish(ex, res, ["key absent", "run of %d+1+%d" % (NL, NR), "run of 0+1+0"])
+    r.queries, r.solver_s = tq, ts
+    return r
